@@ -70,11 +70,12 @@ class DumperBase(DataStreamProcessor):
             counter += 1
             yield row
         DumperBase.inc_attr(self.datapackage.descriptor, self.datapackage_rowcount, counter)
-        DumperBase.inc_attr(resource.res.descriptor, self.resource_rowcount, counter)
+        # A resource is counted once per dump, whatever count an earlier dump left in its descriptor
+        DumperBase.set_attr(resource.res.descriptor, self.resource_rowcount, counter)
         # The resource's own descriptor is not the one the package writes out, update that one too
         for descriptor in self.datapackage.descriptor['resources']:
             if descriptor['name'] == resource.res.descriptor['name'] and descriptor is not resource.res.descriptor:
-                DumperBase.inc_attr(descriptor, self.resource_rowcount, counter)
+                DumperBase.set_attr(descriptor, self.resource_rowcount, counter)
         resource.res.commit()
         self.datapackage.commit()
 
